@@ -289,7 +289,13 @@ pub fn run(sut: &dyn Sut, tier: Tier) -> ! {
     run.canaries(&mut |v| eval_replay(sut, v));
     let cases = tier.pick(300, 10000);
     let mut j = |choices: &[u32], st: &mut Stats| judge_wide(sut, choices, st);
-    if let Some(f) = run_inprocess(run.seed_for(1), cases, (150, 700), &mut stats, &mut j) {
+    let mut found = run_inprocess(run.seed_for(1), cases, (150, 700), &mut stats, &mut j);
+    if found.is_none() && tier == Tier::Thorough {
+        // coverage-guided search over the same choice sequences (libFuzzer, oracle in the target);
+        // one execution generates 48 outputs
+        found = fuzz_choices(&run, &mut stats, (150, 700), 200, 12, 1_000, &mut j);
+    }
+    if let Some(f) = found {
         let mut ch = Ch::new(&f.choices);
         let sh = gen_shader(&mut ch, &profile());
         run.violation(json!({"kind": "c09wide", "choices": f.choices, "wgsl": render(&sh)}), &f.message);
